@@ -799,7 +799,10 @@ func (config *Config) resolve() (changedFields set.Set[string], err error) {
 	nameToSource := make(map[string]Source)
 	for _, source := range SourcesInDescendingOrder {
 	valueLoop:
-		for rawName, rawValue := range config.sourceToRawConfig[source] {
+		// Visit the raw names in sorted order so that the result does not depend on
+		// Go's map iteration order (e.g. for case-variant spellings of one parameter).
+		for _, rawName := range slices.Sorted(maps.Keys(config.sourceToRawConfig[source])) {
+			rawValue := config.sourceToRawConfig[source][rawName]
 			lowerCaseName := strings.ToLower(rawName)
 			currentSource := nameToSource[lowerCaseName]
 			param, ok := knownParams[lowerCaseName]
